@@ -22,6 +22,7 @@ import svgpathtools.path as sppath      # noqa
 
 
 def make(z):
+    z = pm.typed(z)
     return {2: sp.Line, 3: sp.QuadraticBezier, 4: sp.CubicBezier}[len(z)](*z)
 
 
